@@ -322,7 +322,10 @@ pub fn check_strict(case: &str) -> Result<(), String> {
 /// the function named after the operator.  Case: `<op> :: <left> :: <right>`
 pub fn enum_infix(_s: u64) -> Vec<String> {
     let ops = ["=", "==", "<", "<=", ">", ">=", "+", "-", "*", "/"];
-    let operands = [("$X", "3"), ("a", "$Y"), ("f($X)", "[1, 2]"), ("2.5", "$Z"), ("$A", "$B")];
+    // (operands of one, two, three and four bytes per character on either side: positions in the text are counted in
+    // characters - seed C14-4 cut the operands at byte offsets)
+    let operands = [("$X", "3"), ("a", "$Y"), ("f($X)", "[1, 2]"), ("2.5", "$Z"), ("$A", "$B"),
+                    ("café", "cafés"), ("é", "é"), ("Ωmega", "$X"), ("$X", "Ωmega"), ("日本", "日本語"), ("a😀", "b"), ("straße", "f(ü, $Y)")];
     let mut out = vec![];
     for op in ops { for (l, r) in operands { out.push(format!("{} :: {} :: {}", op, l, r)); } }
     out
